@@ -754,7 +754,7 @@ def failure_reasons(val, layer):
     return out
 
 
-def s_failmodes(rep, W, rule="S-FAILMODES"):
+def s_failmodes(rep, W, rule="S-FAILMODES", ops=None, methods=None):
     """No failure mode beyond the tabled ones, below the HTTP layer.  The statements quantify over every request and payload
     ("accepted exactly when ..", "every payload up to the size limit", "the same history gives the same responses on every
     back end"), so a request may fail inside the library only because storage failed or the client is unknown, and a storage
@@ -762,7 +762,8 @@ def s_failmodes(rep, W, rule="S-FAILMODES"):
     key, snapshot absent or of another version).  An error exit under any other path condition -- a size cap, a rejected id
     value, a state-dependent refusal -- is a new way for a valid request to be answered 500."""
     n = 0
-    for opn in ("add_version", "get_child_version", "add_snapshot", "get_snapshot"):
+    scoped = ops is not None or methods is not None      # a property about one operation composes that operation's part only
+    for opn in (ops if ops is not None else ("add_version", "get_child_version", "add_snapshot", "get_snapshot")):
         b = W.op(opn)
         bad = []
         for site, rt, val, kind in exit_kinds(W, b, lambda t: "err" if is_error_exit(t) else "ok"):
@@ -774,7 +775,7 @@ def s_failmodes(rep, W, rule="S-FAILMODES"):
         rep.ob(rule, (short_fn(b), "error-exits-tabled"), not bad,
                "Server::%s fails only when a storage call failed or the client is unknown; other failing paths: %s" % (opn, bad[:2] or "none"),
                where(b, line=bad[0][0]) if bad else where(b))
-    impls = [(be, mth, W.impl_method(be, mth)) for be in ("sqlite", "inmemory") for mth in WD.ALL_METHODS]
+    impls = [(be, mth, W.impl_method(be, mth)) for be in ("sqlite", "inmemory") for mth in WD.ALL_METHODS if methods is None or mth in methods]
     impls += [(be, "txn", W.impl_storage_txn(be)) for be in ("sqlite", "inmemory")]
     for be, mth, b in impls:
         bad = []
@@ -801,7 +802,7 @@ def s_failmodes(rep, W, rule="S-FAILMODES"):
         if bad:
             rep.fail(rule, ("sqlite", short_fn(b), "closure-error-exits-tabled"),
                      "a closure of the SQLite back end fails under a condition other than a failed rusqlite call: %s" % bad[:2], where(b, line=bad[0][0]))
-    rep.floor(rule, "error exits examined", n, 25)
+    rep.floor(rule, "error exits examined", n, 8 if scoped else 25)
 
 
 # --------------------------------------------------------------------------- S-TXN2
@@ -1801,7 +1802,7 @@ def c18_ops(rep, W, rule="C18.OPS"):
             ndec += 1
             rep.ob(rule, (short_fn(sn), "decline-write-free#%d" % ndec), True, "decline exit with no write-class/commit call on any path to it",
                    where(sn, line=exit_line(sn, site)))
-    rep.floor(rule, "add_snapshot decline exits", ndec, 2)
+    rep.floor(rule, "add_snapshot decline exits", ndec, 1)
     rep.floor(rule, "add_snapshot accept exits", nacc, 1)
     # exactly one exit follows the write
     rep.ob(rule, (short_fn(sn), "single-accept-exit"), nacc == 1, "%d exit(s) follow set_snapshot" % nacc, where(sn))
@@ -2062,7 +2063,7 @@ def c10(rep, W, rule="C10"):
         rep.ob(rule, (fn, "D", "decline-condition#%d" % nd), not bad_,
                "a decline exit is taken only under: already the snapshot / newer snapshot in window / window exhausted / chain start reached / version missing; offending: %s"
                % bad_[:1], where(body, line=exit_line(body, site)))
-    rep.floor(rule, "decline exits", nd, 2, where(body))
+    rep.floor(rule, "decline exits", nd, 1, where(body))
     # a version missing from the chain ("should not happen") is a quiet decline like the others: the client is told success,
     # never an error -- every exit reachable while the parent lookup reported "no such version" is the unit success
     miss_bad = []
